@@ -272,10 +272,14 @@ func (w *l1World) genConfig() ophosttypes.BridgeConfig {
 
 // genAmount picks an amount relative to a reference balance.
 func (w *l1World) genAmount(ref *big.Int) math.Int {
-	sel := w.r.Weighted([]int{10, 2, 1, 1, 1, 1})
+	sel := w.r.Weighted([]int{10, 2, 1, 1, 1, 3})
 	if sel == 5 {
 		// beyond 64 bits when the reference balance allows it
 		if ref.BitLen() > 66 {
+			// close to the 64-bit limit: two such deposits make an escrow that does not fit 64 bits
+			if w.r.Chance(3, 4) {
+				return math.NewIntFromUint64(^uint64(0) - w.r.Uint64n(1<<40))
+			}
 			return math.NewIntFromBigInt(new(big.Int).Add(new(big.Int).Lsh(big.NewInt(1), 65), new(big.Int).SetUint64(w.r.Uint64n(1<<40))))
 		}
 		sel = 0
